@@ -23,7 +23,10 @@ CLASSES = {
     # per-sample columns of a weighted sample set and its length
     "Samples": [("log_likelihood", "V"), ("log_prior", "V"), ("log_q", "V"), ("n", "N")],
     "SamplesW": [("log_w", "V")],
+    "Empty": [],
     "SamplesLP": [("log_likelihood", "V"), ("log_prior", "V")],
+    "Hist": [("beta", "V"), ("log_norm_ratio", "V"), ("log_norm_ratio_var", "V")],
+    "SamplerH": [("history", "O:Hist")],
     "SMCSamples": [("beta", "S"), ("log_likelihood", "V"), ("log_prior", "V"), ("log_q", "V"), ("n", "N")],
     # schedule options held by the sampler
     "SMCSampler": [
@@ -32,6 +35,10 @@ CLASSES = {
         ("target_efficiency_rate", "S"),
     ],
 }
+
+SAMPLE_PARAMS = ["n_samples", "n_steps", "adaptive", "min_step", "max_n_steps", "target_efficiency", "target_efficiency_rate",
+                 "n_final_samples", "checkpoint_callback", "checkpoint_every", "checkpoint_file_path", "resume_from",
+                 "store_sample_history", "beta_tolerance"]
 
 VEC_ORDER = ["log_likelihood", "log_prior", "log_q", "log_w", "log_u"]
 
@@ -77,6 +84,24 @@ SPECS = [
     dict(name="determine_beta", py="samplers/smc/base.py:SMCSampler.determine_beta",
          objects={"self": ("SMCSampler", "cfg_"), "samples": ("SMCSamples", "s_")},
          params={"beta": "S", "beta_step": "S", "min_step": "S", "beta_tolerance": "S"}, round=True),
+    # ---------------------------------------------------------------- control predicates of SMCSampler.sample
+    dict(name="should_checkpoint", py="samplers/smc/base.py:SMCSampler.sample.maybe_checkpoint", params={"force": "B"},
+         extra_params={"checkpoint_every": "ON", "iterations": "N"}, extract={"first": "should_checkpoint", "count": 1},
+         result="should_checkpoint", extract_doc="the cadence rule `should_checkpoint = force or (...)`"),
+    dict(name="loop_exit", py="samplers/smc/base.py:SMCSampler.sample", ignore_params=SAMPLE_PARAMS,
+         extra_params={"beta": "S", "max_n_steps": "ON", "iterations": "N"}, extract={"if_break": "stop"}, result="stop",
+         extract_doc="the test of `if beta == 1.0 or (max_n_steps is not None and iterations >= max_n_steps): break`"),
+    dict(name="init_min_step", py="samplers/smc/base.py:SMCSampler.sample", ignore_params=SAMPLE_PARAMS, objects={"self": ("Empty", "")},
+         extra_params={"min_step": "OS", "max_n_steps": "ON"}, extract={"first_any": "min_step", "count": 1}, result=["min_step", "self.adaptive_min_step"],
+         extract_doc="the `if min_step is None: ...` block that initialises min_step and adaptive_min_step"),
+    dict(name="resume_loop_flag", py="samplers/smc/base.py:SMCSampler.sample", ignore_params=SAMPLE_PARAMS, objects={"self": ("SamplerH", "")},
+         extra_params={"resumed": "B", "beta": "S", "iterations": "N", "max_n_steps": "ON"},
+         extract={"first": "run_smc_loop", "count": 2}, result="run_smc_loop",
+         extract_doc="`run_smc_loop = True; if resumed: ...` (whether a resumed call re-enters the loop)"),
+    dict(name="final_evidence", py="samplers/smc/base.py:SMCSampler.sample", ignore_params=SAMPLE_PARAMS,
+         objects={"self": ("SamplerH", ""), "samples": ("Empty", "")},
+         extract={"first_attr": "samples.log_evidence", "count": 2}, result=["samples.log_evidence", "samples.log_evidence_error"],
+         extract_doc="`samples.log_evidence = sum(log_norm_ratio)`, `samples.log_evidence_error = sqrt(sum(log_norm_ratio_var))`"),
 ]
 
 # module -> (imports, functions): one generated file per group so that an untranslatable function only breaks the
@@ -88,4 +113,5 @@ GROUPS = {
                                       "log_evidence_ratio_variance", "log_weights", "resample_p"]),
     "SrcSchedule": (["SrcSmcSamples"], ["current_target_efficiency", "determine_beta"]),
     "SrcTarget": (["SrcSmcSamples"], ["smc_kernel_target", "mcmc_kernel_target"]),
+    "SrcLoop": ([], ["should_checkpoint", "loop_exit", "init_min_step", "resume_loop_flag", "final_evidence"]),
 }
